@@ -37,6 +37,30 @@ type dbSuite struct {
 	usedKeys map[string][][]byte
 	nkeys    int
 	openLine string
+	// crash-image capture (armed by a `capture` line for the next commit / merge)
+	capture  bool
+	armed    bool
+	images   []crashImage
+	imgLeft  int
+	imgNext  int
+	armedGen bool
+	mergeNext bool
+	// power-loss shadow: content that has reached stable storage (sync'ed), pending writes per file
+	durable map[string][]byte
+	pending map[string][]pendWrite
+	interned map[string][]byte
+}
+
+type pendWrite struct {
+	off  int64
+	data []byte
+}
+
+// crashImage is the content of the database directory at one file-mutation point.
+type crashImage struct {
+	event string            // the mutation that was about to happen
+	files map[string][]byte // data files (name -> content)
+	torn  int               // bytes of the pending write that reached the file (0 = none)
 }
 
 var dbProfile = "mixed"
@@ -45,7 +69,7 @@ func init() {
 	suites["db"] = func() suite {
 		return &dbSuite{profile: dbProfile}
 	}
-	for _, p := range []string{"kv", "structs", "mixed", "merge", "iso", "list", "set", "zset"} {
+	for _, p := range []string{"kv", "structs", "mixed", "merge", "iso", "list", "set", "zset", "crash", "mcrash"} {
 		p := p
 		suites["db-"+p] = func() suite { return &dbSuite{profile: p} }
 	}
@@ -60,7 +84,167 @@ func (s *dbSuite) hook(op, path string, off int64, data []byte) error {
 		s.lockIDs = append(s.lockIDs, uint64(off))
 		s.hookMu.Unlock()
 	}
+	if s.capture && strings.HasPrefix(path, s.dir) && strings.HasSuffix(path, ".dat") {
+		name := path[strings.LastIndex(path, "/")+1:]
+		switch op {
+		case "write":
+			c := make([]byte, len(data))
+			copy(c, data)
+			s.pending[name] = append(s.pending[name], pendWrite{off, c})
+		case "sync":
+			// everything written to this file so far is now on stable storage (and so is its
+			// directory entry, as the property grants)
+			cur, ok := s.durable[name]
+			if !ok {
+				cur = []byte{}
+			}
+			if b, err := os.ReadFile(path); err == nil && len(b) > len(cur) {
+				ext := make([]byte, len(b))
+				copy(ext, cur)
+				cur = ext
+			}
+			for _, w := range s.pending[name] {
+				if int(w.off)+len(w.data) <= len(cur) {
+					copy(cur[w.off:], w.data)
+				}
+			}
+			s.pending[name] = nil
+			s.durable[name] = cur
+		}
+	}
+	if s.capture && strings.HasPrefix(path, s.dir) {
+		switch op {
+		case "write", "sync", "truncate", "remove":
+			s.snapshot(op, path, off, data)
+		case "create":
+			if _, err := os.Stat(path); err != nil {
+				s.snapshot(op, path, off, data)
+			}
+		}
+	}
 	return nil
+}
+
+// snapshot records the directory as a crash at this point would leave it (the mutation `op` has not
+// happened yet), plus, for a write, variants in which a prefix of the data reached the file.
+func (s *dbSuite) snapshot(op, path string, off int64, data []byte) {
+	if len(s.images) > 400 {
+		return
+	}
+	read := func() map[string][]byte {
+		m := map[string][]byte{}
+		ents, _ := os.ReadDir(s.dir)
+		for _, e := range ents {
+			if strings.HasSuffix(e.Name(), ".dat") {
+				b, _ := os.ReadFile(s.dir + "/" + e.Name())
+				m[e.Name()] = b
+			}
+		}
+		return m
+	}
+	base := read()
+	s.images = append(s.images, crashImage{event: op, files: base})
+	if s.opt.SyncEnable {
+		// power loss here: every file reverts to what was synced (unsynced writes dropped,
+		// unsynced removals undone, never-synced files gone)
+		m := map[string][]byte{}
+		for n, b := range s.durable {
+			c := make([]byte, len(b))
+			copy(c, b)
+			m[n] = c
+		}
+		s.images = append(s.images, crashImage{event: "pl-" + op, files: m})
+	}
+	if op == "write" && strings.HasSuffix(path, ".dat") && len(data) > 8 {
+		name := path[strings.LastIndex(path, "/")+1:]
+		for _, k := range []int{5, 21, 42, len(data) - 1} {
+			if k >= len(data) || k <= 0 {
+				continue
+			}
+			m := map[string][]byte{}
+			for n, b := range base {
+				c := make([]byte, len(b))
+				copy(c, b)
+				m[n] = c
+			}
+			if f, ok := m[name]; ok && int(off)+k <= len(f) {
+				copy(f[off:], data[:k])
+				s.images = append(s.images, crashImage{event: "write-torn", files: m, torn: k})
+			}
+		}
+	}
+}
+
+// startCapture initialises the power-loss shadow from the directory (everything before is synced).
+func (s *dbSuite) startCapture() {
+	s.capture = true
+	s.durable = map[string][]byte{}
+	s.pending = map[string][]pendWrite{}
+	ents, _ := os.ReadDir(s.dir)
+	for _, e := range ents {
+		if strings.HasSuffix(e.Name(), ".dat") {
+			b, _ := os.ReadFile(s.dir + "/" + e.Name())
+			s.durable[e.Name()] = b
+		}
+	}
+}
+
+// endCapture takes the final images: a crash / a power loss right after the call returned.
+func (s *dbSuite) endCapture() {
+	if !s.capture {
+		return
+	}
+	s.snapshot("end", s.dir+"/", 0, nil)
+	s.capture = false
+}
+
+// openImage materialises a crash image in a fresh directory, lists its records, opens it with the
+// options of the case and observes.
+func (s *dbSuite) openImage(i int) string {
+	if i < 0 || i >= len(s.images) {
+		return "err no-such-image"
+	}
+	img := s.images[i]
+	d, err := os.MkdirTemp(s.scratch, "img-")
+	if err != nil {
+		return "err"
+	}
+	defer os.RemoveAll(d)
+	for n, b := range img.files {
+		os.WriteFile(d+"/"+n, b, 0644)
+	}
+	saveDir, saveDB, saveHook, saveCap := s.dir, s.db, nutsdb.VerifFSHook, s.capture
+	defer func() { s.dir, s.db, nutsdb.VerifFSHook, s.capture = saveDir, saveDB, saveHook, saveCap }()
+	s.capture = false
+	nutsdb.VerifFSHook = nil
+	s.dir = d
+	listing := s.listFiles()
+	opt := s.opt
+	opt.Dir = d
+	res := "event=" + img.event + " files=" + listing
+	var db *nutsdb.DB
+	func() {
+		defer func() {
+			if r := recover(); r != nil {
+				res += " open=panic"
+				db = nil
+			}
+		}()
+		var err error
+		db, err = nutsdb.Open(opt)
+		if err != nil {
+			res += " open=err"
+			db = nil
+		} else {
+			res += " open=ok"
+		}
+	}()
+	if db != nil {
+		s.db = db
+		res += " obs=" + strings.TrimPrefix(s.observe(), "ok ")
+		db.Close()
+	}
+	return "ok " + res
 }
 
 func (s *dbSuite) newCase(id int) {
@@ -79,6 +263,8 @@ func (s *dbSuite) newCase(id int) {
 	s.usedKeys = map[string][][]byte{}
 	s.nkeys = 0
 	s.openLine = ""
+	s.interned = nil
+	s.images, s.imgNext, s.armedGen, s.capture, s.armed, s.mergeNext = nil, 0, false, false, false, false
 	nutsdb.VerifFSHook = s.hook
 }
 
@@ -182,7 +368,7 @@ func (s *dbSuite) observe() string {
 	return "ok kv{" + strings.Join(kv, ";") + "} list{" + strings.Join(ls, ";") + "} set{" + strings.Join(ss, ";") + "} zset{" + strings.Join(zs, ";") + "}"
 }
 
-// listFiles renders every record of every data file: fid@off:flag:ds:status:txid:bucket/key=value
+// listFiles renders every record of every data file: fid{off:flag:ds:status:txid:ts:ttl:bucket/key=value,...}
 func (s *dbSuite) listFiles() string {
 	ents, _ := os.ReadDir(s.dir)
 	var ids []int
@@ -217,8 +403,8 @@ func (s *dbSuite) listFiles() string {
 			if e == nil {
 				break
 			}
-			b, k, v, _, _, flag, status, ds, txid, _ := e.VerifFields()
-			recs = append(recs, fmt.Sprintf("%d:%d:%d:%d:%d:%s/%s=%s", off, flag, ds, status, txid, hx(b), hx(k), hx(v)))
+			b, k, v, ts, ttl, flag, status, ds, txid, _ := e.VerifFields()
+			recs = append(recs, fmt.Sprintf("%d:%d:%d:%d:%d:%d:%d:%s/%s=%s", off, flag, ds, status, txid, ts, ttl, hx(b), hx(k), hx(v)))
 			off += int(e.Size())
 		}
 		nutsdb.VerifFSHook = nil
@@ -234,11 +420,11 @@ func (s *dbSuite) listFiles() string {
 func (s *dbSuite) exec(line string) string {
 	f := strings.Fields(line)
 	B := func(i int) string { return string(unhx(f[i])) }
-	K := func(i int) []byte { return unhx(f[i]) }
+	K := func(i int) []byte { return s.intern(unhx(f[i])) }
 	I := func(i int) int { return atoi(f[i]) }
 	U := func(i int) uint64 { n, _ := strconv.ParseUint(f[i], 10, 64); return n }
 	tx := s.tx
-	if tx == nil && f[0] != "open" && f[0] != "begin" && f[0] != "close" && f[0] != "merge" && f[0] != "obs" && f[0] != "files" {
+	if tx == nil && f[0] != "open" && f[0] != "begin" && f[0] != "close" && f[0] != "merge" && f[0] != "obs" && f[0] != "files" && f[0] != "capture" && f[0] != "image" {
 		// calls without a transaction are made on a finished one
 		tx = s.deadTx()
 	}
@@ -273,6 +459,11 @@ func (s *dbSuite) exec(line string) string {
 			return "err"
 		}
 		var res string
+		if s.armed {
+			s.armed = false
+			s.startCapture()
+		}
+		defer s.endCapture()
 		func() {
 			defer func() {
 				if r := recover(); r != nil {
@@ -311,7 +502,12 @@ func (s *dbSuite) exec(line string) string {
 		s.lockIDs = nil
 		s.hookMu.Unlock()
 		res := "ok"
+		if s.armed {
+			s.armed = false
+			s.startCapture()
+		}
 		func() {
+			defer s.endCapture()
 			defer func() {
 				if r := recover(); r != nil {
 					res = "panic"
@@ -333,6 +529,12 @@ func (s *dbSuite) exec(line string) string {
 		return s.observe()
 	case "files":
 		return "ok " + s.listFiles()
+	case "capture":
+		s.armed = true
+		s.images = nil
+		return "ok"
+	case "image":
+		return s.openImage(I(1))
 	// ---- KV
 	case "put":
 		return errOr(tx.PutWithTimestamp(B(1), K(2), K(3), uint32(U(4)), U(5)), "")
@@ -520,7 +722,11 @@ func (s *dbSuite) now() int64 { return time.Now().Unix() }
 
 func (s *dbSuite) genKey(r *rand.Rand, b string) []byte {
 	// mostly keys already used in this bucket, sometimes a new one from a family with shared prefixes
-	if ks := s.usedKeys[b]; len(ks) > 0 && r.Intn(10) < 6 {
+	reuse := 6
+	if s.profile == "mcrash" || s.profile == "merge" {
+		reuse = 8
+	}
+	if ks := s.usedKeys[b]; len(ks) > 0 && r.Intn(10) < reuse {
 		return ks[r.Intn(len(ks))]
 	}
 	var k []byte
@@ -586,7 +792,7 @@ func (s *dbSuite) genValue(r *rand.Rand) []byte {
 	case 1:
 		return []byte(strings.Repeat("v", 20+r.Intn(60)))
 	case 2:
-		if s.profile == "mixed" || s.profile == "merge" {
+		if s.profile == "mixed" || s.profile == "merge" || s.profile == "crash" {
 			return []byte(strings.Repeat("B", 600)) // larger than any segment: commit fails
 		}
 		return []byte("w")
@@ -618,15 +824,30 @@ func (s *dbSuite) gen(r *rand.Rand, step int) string {
 		s.pendObs = false
 		return fmt.Sprintf("obs %d", s.now())
 	}
+	if s.imgNext < len(s.images) {
+		s.imgNext++
+		return fmt.Sprintf("image %d %d", s.imgNext-1, s.now())
+	}
 	if !s.inTx {
 		x := r.Intn(40)
+		if s.mergeNext {
+			s.mergeNext = false
+			x = 1
+		}
 		switch {
 		case x == 0 && s.db != nil:
 			// clean reopen
 			s.pendObs = false
 			s.opened = false
 			return "close"
-		case x == 1 && s.profile == "merge":
+		case (x == 1 || ((x == 3 || x == 4 || x == 5) && s.profile == "mcrash")) && (s.profile == "merge" || s.profile == "mcrash"):
+			if s.profile == "mcrash" && !s.armedGen {
+				s.armedGen = true
+				s.mergeNext = true
+				return "capture"
+			}
+			s.armedGen = false
+			s.imgNext = 0
 			s.pendObs = true
 			return fmt.Sprintf("merge %d", s.now())
 		case x == 2:
@@ -642,11 +863,21 @@ func (s *dbSuite) gen(r *rand.Rand, step int) string {
 		return "begin r"
 	}
 	if s.txLeft <= 0 {
+		if s.profile == "crash" && s.txW && !s.armedGen && r.Intn(2) == 0 {
+			s.armedGen = true
+			s.images = nil
+			return "capture"
+		}
 		s.inTx = false
 		s.pendObs = true
-		if r.Intn(8) == 0 {
+		if !s.armedGen && r.Intn(8) == 0 {
 			return "rollback"
 		}
+		if !s.armedGen {
+			s.images = nil
+		}
+		s.armedGen = false
+		s.imgNext = 0
 		return "commit"
 	}
 	s.txLeft--
@@ -658,7 +889,10 @@ func (s *dbSuite) genOp(r *rand.Rand, dead bool) string {
 	hb := hx([]byte(b))
 	now := s.now()
 	kind := s.profile
-	if kind == "mixed" || kind == "merge" || kind == "iso" {
+	if kind == "mcrash" {
+		// mostly overwrites and deletes of few keys: segments that are mostly garbage
+		kind = []string{"kv", "kv", "kv", "kv", "kv", "kv", "set", "zset", "list"}[r.Intn(9)]
+	} else if kind == "mixed" || kind == "merge" || kind == "iso" || kind == "crash" {
 		kind = []string{"kv", "kv", "list", "set", "zset"}[r.Intn(5)]
 		if s.opt.EntryIdxMode != nutsdb.HintKeyValAndRAMIdxMode {
 			kind = "kv"
@@ -823,6 +1057,26 @@ func (s *dbSuite) genOp(r *rand.Rand, dead bool) string {
 			return fmt.Sprintf("zgetbykey %s %s", hb, hx(k))
 		}
 	}
+}
+
+// intern returns the case-wide slice for these bytes: callers of a real application reuse their key
+// and value variables, so every call with equal bytes gets the SAME backing array, which has spare
+// capacity (a library that appends to or retains the caller's slice then shows).
+func (s *dbSuite) intern(b []byte) []byte {
+	if s.interned == nil {
+		s.interned = map[string][]byte{}
+	}
+	if x, ok := s.interned[string(b)]; ok {
+		if string(x) != string(b) {
+			// the library modified the caller's bytes
+			panic("caller's slice was modified by the library: " + hx(b) + " -> " + hx(x))
+		}
+		return x
+	}
+	x := make([]byte, len(b), len(b)+24)
+	copy(x, b)
+	s.interned[string(b)] = x
+	return x
 }
 
 // peek looks at the committed state through the open transaction (or a fresh read-only one).
